@@ -71,7 +71,24 @@ def check_a(ck, repo):
         ap = repo.cls("mlinsights.mlmodel.piecewise_estimator", "PiecewiseEstimator").methods["_apply_predict_method"]
         rets = [src_of(r.value) for r in own_nodes(ap.node) if isinstance(r, ast.Return)]
         n += 1
-        ck.verdict(rets == ["pred"], "C04.a", ap, f"returns {rets}", "single exit returning the scattered predictions (same path for every batch composition)", f"_apply_predict_method returns {rets}: batches of a particular composition take a different path (no scatter, no fallback for unseen buckets), so a row's output depends on which other rows are in the batch")
+        # an exit is the single exit, or comes after the per-bucket scatter loop and is taken only when no
+        # row is left for the fallback (the fallback's own guard is decided by C08.b)
+        ret_nodes = [r for r in own_nodes(ap.node) if isinstance(r, ast.Return)]
+        same = len(set(rets)) == 1 and all(isinstance(r.value, ast.Name) for r in ret_nodes)
+        if same and len(rets) > 1:
+            N_ = ret_nodes[0].value.id
+            loops_ = [l_ for l_ in own_nodes(ap.node) if isinstance(l_, ast.For) and any(isinstance(x_, ast.Assign) and isinstance(x_.targets[0], ast.Subscript) and src_of(x_.targets[0].value) == N_ for x_ in ast.walk(l_))]
+            end_ = max((getattr(x_, "lineno", 0) for l_ in loops_ for x_ in ast.walk(l_)), default=None)
+            from .sem import conds_at as _conds_at
+
+            def _only_empty(r_):
+                cs_ = list(_conds_at(repo, ap, r_))
+                return all((pol and ("== 0" in t_ or t_.startswith("not ") or "0 ==" in t_)) or (not pol and ("> 0" in t_ or ".any()" in t_ or "numpy.any(" in t_ or "0 <" in t_ or t_.endswith(".shape[0]") or t_.endswith(".size"))) for t_, pol in cs_) and bool(cs_)
+
+            early = [r_ for r_ in ret_nodes if r_ is not ret_nodes[-1]]
+            if end_ is not None and all(r_.lineno > end_ and _only_empty(r_) for r_ in early):
+                rets = [N_]
+        ck.verdict(rets == ["pred"] or (same and rets == [ret_nodes[0].value.id] and len(ret_nodes) > 1), "C04.a", ap, f"returns {rets}", "single exit returning the scattered predictions (same path for every batch composition)", f"_apply_predict_method returns {rets}: batches of a particular composition take a different path (no scatter, no fallback for unseen buckets), so a row's output depends on which other rows are in the batch")
     except KeyError:
         pass
     return n
